@@ -430,7 +430,7 @@ Factory(b, k) ==     \* b: failing from now on; k: ... after k more successful c
   /\ Commit([BaseEv("factory") EXCEPT !.fail = b], [op |-> "factory", fail |-> b, after |-> k])
   /\ UNCHANGED <<nconn, scst, scref, refr, slots, affm, fbm, cnt, gst, pubs, calls, addrs, cfgd, ecfg, meth, rrid, pend>>
 
-KeySeqs == {<<>>} \cup {<<k>> : k \in Keys} \cup {s2 \in {<<k1, k2>> : k1 \in Keys, k2 \in Keys} : s2[1] # s2[2]}
+KeySeqs == {<<>>} \cup {<<k>> : k \in Keys} \cup {<<k1, k2>> : k1 \in Keys, k2 \in Keys}      \* a key may be listed twice
 ReqShapes == IF UseBadReq THEN {"", "nil", "embnil"} ELSE {""}
 
 \* a blocked pick that has returned is delivered before anything else happens (the harness does the same)
